@@ -66,6 +66,18 @@ CLAIMED = {
              "the runtime (both outcomes satisfy the oracle); goroutine interleavings inside one cascade are not enumerated at this level.",
         technique="explicit-state BFS over message/ending interleavings on the implementation (virtual time)",
         design_ref="5/C06", engine="A-macro"),
+    "C07": dict(
+        level="exploration",
+        text="Bounded-exhaustive enumeration: handler level - every (local, remote) pair of the square 1..32 (quick) / 1..96 (thorough), both "
+             "directions, EVERY LCM shard id through the real StreamWorkflowReplicationMessages -> handleStream -> mapShardIDUnique, plus "
+             "all power-of-two pairs up to 16384, mixed composites and coprime pairs at boundary ids and a stride; wiring level - the real "
+             "NewClusterConnection on loopback between two generic fake clusters for the square 1..8 (1..12 thorough), DescribeCluster "
+             "through both servers and one real gRPC stream per LCM shard id and direction. Oracle: reported count = lcm (independent gcd by "
+             "subtraction), serving shard = ((s-1) mod count)+1, initiator shard = s, cluster ids preserved, no panic, exactly one forwarded "
+             "stream; hash consistency checked with Temporal's own WorkflowIDToHistoryShard.",
+        note="Trusted: the generic fake backend, loopback TCP. Large pairs are covered at boundary ids and a stride only.",
+        technique="bounded-exhaustive enumeration of configurations x shard ids on the implementation (handler and end-to-end wiring)",
+        design_ref="5/C07", engine="B-enum"),
     "C20": dict(
         level="model_checking",
         text="Bounded-exhaustive histories of stream opens on the real StreamWorkflowReplicationMessages handler with the real "
@@ -134,6 +146,8 @@ def main():
         "engines": [
             {"name": "B-seq", "path": "/verif/harness", "serves_properties": ["C05"],
              "kind_free_text": "explicit-state / bounded-exhaustive enumeration driving the real code in-package"},
+            {"name": "B-enum", "path": "/verif/harness", "serves_properties": ["C07"],
+             "kind_free_text": "bounded-exhaustive enumeration of a finite structurally defined input space against a reference computed independently"},
             {"name": "A-macro", "path": "/verif/harness/proxy/routing_*.go + /verif/rt/pool.go", "serves_properties": ["C01", "C02", "C03", "C04", "C06", "C20"],
              "kind_free_text": "explicit-state BFS whose transitions are executions of the real goroutines in testing/synctest bubbles; "
                                "successors by replay; 16 persistent GOMAXPROCS=1 worker processes"},
